@@ -1906,3 +1906,156 @@ Proof.
     reflexivity.
   - intros out S. destruct (save_split _ _ _ W' DB' S) as (S1 & _). rewrite S1. exact A4.
 Qed.
+
+(* ---- locating the two regions from a description of the tree ---- *)
+
+Lemma me_unique a x b c y d : nome a = true -> nome c = true -> is_me x = true -> is_me y = true ->
+  a ++ x :: b = c ++ y :: d -> x = y.
+Proof.
+  revert c. induction a as [|r a IH]; intros [|s c] NA NC MX MY E; simpl in *.
+  - congruence.
+  - injection E as -> _. apply andb_true_iff in NC as [NC _]. rewrite MX in NC. discriminate.
+  - injection E as -> _. apply andb_true_iff in NA as [NA _]. rewrite MY in NA. discriminate.
+  - injection E as _ E. apply andb_true_iff in NA as [_ NA]. apply andb_true_iff in NC as [_ NC]. eauto.
+Qed.
+
+Lemma locate t mb fp fso : wf_tree t -> In (RME mb fp fso) (t_regions t) ->
+  existsb is_bios (t_regions t) = true -> end_off (me_fr t) = base_off (bios_fr t) ->
+  exists f0 f1 rest pre els bl post,
+    t_slots t = f0 :: f1 :: rest /\
+    t_regions t = pre ++ RME mb fp fso :: RBios els bl :: post /\
+    forallb plain pre = true /\ forallb plain post = true.
+Proof.
+  intros W I B ADJ. destruct (wf_slots _ W) as (f0 & f1 & rest & S).
+  pose proof W as (_ & _ & _ & F & C & C1 & C2).
+  apply in_split in I as (p & q & R).
+  assert (N : nome p = true /\ nome q = true).
+  { rewrite R, count_app, count_cons in C1. cbn [is_me] in C1.
+    pose proof (count_nonneg is_me p). pose proof (count_nonneg is_me q).
+    split; apply count_me_zero; lia. }
+  destruct N as [Np Nq].
+  assert (LM : last_me (t_regions t) 0 None = Some (length p, mb, fso)).
+  { rewrite R, last_me_app, (last_me_nome p) by auto. cbn [last_me]. rewrite last_me_nome by auto.
+    reflexivity. }
+  destruct (last_bios (t_regions t) 0 None) as [[[ib els] bl]|] eqn:LB.
+  2:{ apply last_bios_none in LB. apply existsb_nobios in B. congruence. }
+  destruct (shape _ _ _ _ _ _ _ _ _ F C C1 C2 LM LB ADJ) as (pre & fp' & post & R' & _ & _ & P1 & P2).
+  exists f0, f1, rest, pre, els, bl, post. repeat split; auto.
+  rewrite R'. rewrite R in R'.
+  assert (X : RME mb fp fso = RME mb fp' fso).
+  { eapply me_unique; [exact Np|apply plain_nome; exact P1| | |exact R']; reflexivity. }
+  injection X as <-. reflexivity.
+Qed.
+
+Lemma wf_fso_nonneg t mb fp fso : wf_tree t -> In (RME mb fp fso) (t_regions t) -> 0 <= fso.
+Proof.
+  intros (_ & _ & _ & F & _) I. pose proof (forallb_In _ _ _ F I) as RO.
+  apply region_ok_spec in RO as (_ & _ & _ & M). destruct fp as [es|]; subst fso; [|lia].
+  apply fold_fso_ge.
+Qed.
+
+Lemma buf_offset_nonneg f fso : 0 <= fso -> 0 <= tm_buf_offset f fso.
+Proof. intros H. pose proof (update_base_bounds f fso). unfold tm_buf_offset. lia. Qed.
+
+(* ---- the remaining clauses ---- *)
+
+Lemma c12_parse_wf img t pol : good_img img -> parse img = Ok (RootFlash t, pol) ->
+  wf_tree t /\ t_size t = zlen img /\ t_ifd t ++ body t = img.
+Proof.
+  intros G P. destruct (parse_inv _ _ _ G P) as (W & EI & EB & ES & _).
+  split; [exact W|]. split; [exact ES|].
+  rewrite EI, EB. apply zfirstn_zskipn.
+Qed.
+
+Lemma c12_boundary img t pol t' : good_img img -> parse img = Ok (RootFlash t, pol) ->
+  tm pol t = Ok t' ->
+  exists mb fp fso, In (RME mb fp fso) (t_regions t) /\
+    base_off (me_fr t) + fso <= end_off (me_fr t') < base_off (me_fr t) + fso + ifd_block /\
+    fr_base (bios_fr t') = fr_limit (me_fr t') + 1 /\
+    fr_base (me_fr t') = fr_base (me_fr t) /\ fr_limit (bios_fr t') = fr_limit (bios_fr t) /\
+    end_off (me_fr t') <= end_off (me_fr t) /\
+    (forall i, 2 <= i -> slot (t_slots t') i = slot (t_slots t) i).
+Proof. intros G P T. destruct (parse_inv _ _ _ G P) as (W & _). eapply tm_boundary_tree; eauto. Qed.
+
+Lemma c12_partitions_inside img t pol t' mb' es fso : good_img img ->
+  parse img = Ok (RootFlash t, pol) -> tm pol t = Ok t' ->
+  In (RME mb' (Some es) fso) (t_regions t') ->
+  zlen mb' = end_off (me_fr t') - base_off (me_fr t') /\
+  forall e, In e es -> offset_is_valid (fst e) = true -> fst e + snd e <= zlen mb'.
+Proof. intros G P T I. destruct (parse_inv _ _ _ G P) as (W & _). eapply tm_partitions_inside_tree; eauto. Qed.
+
+Lemma c12_tiles img t pol t' : good_img img -> parse img = Ok (RootFlash t, pol) ->
+  tm pol t = Ok t' ->
+  wf_tree t' /\ t_size t' = zlen img /\
+  (forall o, save pol t = Ok o -> exists o', save pol t' = Ok o').
+Proof.
+  intros G P T. destruct (parse_inv _ _ _ G P) as (W & EI & EB & ES & _).
+  split; [eapply tm_wf; eauto|].
+  destruct (tm_inv _ _ _ W T) as (f0 & f1 & rest & pre & mb & fp & fso & els & bl & post & TF & ->).
+  split; [exact ES|].
+  intros o S. destruct (save_pair pol t _ _ _ _ _ _ _ _ _ _ W TF) as (ob & E1 & E2).
+  rewrite E1 in S. rewrite E2. destruct ob; try discriminate. eexists. reflexivity.
+Qed.
+
+Lemma c12_refuses_nonadjacent img t pol : parse img = Ok (RootFlash t, pol) ->
+  existsb is_me (t_regions t) = true -> existsb is_bios (t_regions t) = true ->
+  end_off (me_fr t) <> base_off (bios_fr t) ->
+  tm pol t = Err E_NONADJ /\ tm_after pol t = t.
+Proof.
+  intros _ M B N. pose proof (tm_nonadjacent pol t M B N) as E. split; auto.
+  unfold tm_after. rewrite E. reflexivity.
+Qed.
+
+Lemma c12_refuses_nonerased img t pol mb fp fso : good_img img ->
+  parse img = Ok (RootFlash t, pol) ->
+  In (RME mb fp fso) (t_regions t) -> existsb is_bios (t_regions t) = true ->
+  end_off (me_fr t) = base_off (bios_fr t) ->
+  tm_buf_offset (me_fr t) fso <= zlen mb ->
+  is_erased (zskipn (tm_buf_offset (me_fr t) fso) mb) pol = false ->
+  tm pol t = Err E_NOTERASED /\ tm_after pol t = t.
+Proof.
+  intros G P I B ADJ BO ER. destruct (parse_inv _ _ _ G P) as (W & _).
+  destruct (locate _ _ _ _ W I B ADJ) as (f0 & f1 & rest & pre & els & bl & post & S & R & P1 & P2).
+  pose proof (buf_offset_nonneg (me_fr t) fso (wf_fso_nonneg _ _ _ _ W I)) as BN.
+  unfold me_fr, bios_fr in *. rewrite S, slot_1, ?slot_0 in *.
+  assert (E : tm pol t = Err E_NOTERASED) by (eapply tm_nonerased_tree; eauto; lia).
+  split; auto. unfold tm_after. rewrite E. reflexivity.
+Qed.
+
+Lemma c12_accepts img t pol mb fp fso : good_img img ->
+  parse img = Ok (RootFlash t, pol) ->
+  In (RME mb fp fso) (t_regions t) -> existsb is_bios (t_regions t) = true ->
+  end_off (me_fr t) = base_off (bios_fr t) ->
+  tm_buf_offset (me_fr t) fso <= zlen mb ->
+  is_erased (zskipn (tm_buf_offset (me_fr t) fso) mb) pol = true ->
+  exists t', tm pol t = Ok t'.
+Proof.
+  intros G P I B ADJ BO ER. destruct (parse_inv _ _ _ G P) as (W & _).
+  destruct (locate _ _ _ _ W I B ADJ) as (f0 & f1 & rest & pre & els & bl & post & S & R & P1 & P2).
+  pose proof (buf_offset_nonneg (me_fr t) fso (wf_fso_nonneg _ _ _ _ W I)) as BN.
+  unfold me_fr, bios_fr in *. rewrite S, slot_1, ?slot_0 in *.
+  eexists. eapply tm_ok; eauto. lia.
+Qed.
+
+Lemma c12_panics_iff img t pol mb fp fso : good_img img ->
+  parse img = Ok (RootFlash t, pol) ->
+  In (RME mb fp fso) (t_regions t) -> existsb is_bios (t_regions t) = true ->
+  end_off (me_fr t) = base_off (bios_fr t) ->
+  (tm pol t = Panic 1 <-> zlen mb < tm_buf_offset (me_fr t) fso).
+Proof.
+  intros G P I B ADJ. destruct (parse_inv _ _ _ G P) as (W & _).
+  destruct (locate _ _ _ _ W I B ADJ) as (f0 & f1 & rest & pre & els & bl & post & S & R & P1 & P2).
+  pose proof (buf_offset_nonneg (me_fr t) fso (wf_fso_nonneg _ _ _ _ W I)) as BN.
+  unfold me_fr, bios_fr in *. rewrite S, slot_1, ?slot_0 in *.
+  eapply tm_panic_tree; eauto.
+Qed.
+
+Lemma c12_idempotent img t pol t1 : good_img img -> parse img = Ok (RootFlash t, pol) ->
+  tm pol t = Ok t1 -> exists t2, tm pol t1 = Ok t2 /\ save pol t2 = save pol t1.
+Proof. intros G P T. destruct (parse_inv _ _ _ G P) as (W & _). eapply tm_idempotent_tree; eauto. Qed.
+
+Lemma c12_freed_padding img t pol t' : good_img img -> parse img = Ok (RootFlash t, pol) ->
+  tm pol t = Ok t' ->
+  exists tail els' bl', In (RBios (BPad tail 0 :: els') bl') (t_regions t') /\
+    is_erased tail pol = true /\ zlen tail = base_off (bios_fr t) - base_off (bios_fr t').
+Proof. intros G P T. destruct (parse_inv _ _ _ G P) as (W & _). eapply tm_freed_tree; eauto. Qed.
